@@ -173,6 +173,21 @@ def run_check(prop: str, tier: str, seed: int, replay: Optional[dict], *, profil
         for ext in (".v", ".vo", ".vos", ".vok", ".glob"):
             if gen.with_suffix(ext).exists():
                 gen.with_suffix(ext).unlink()
+    # T-tie of the generator bodies of Not / AND / OR / Union / ElseIf: regenerated as list-monad functions and proved to
+    # be what the evaluator model computes (Eql/EvalSourceProofs.v)
+    from translator import t_symeval
+    gen2 = core.COQ / "Gen" / "SymbolicEval.v"
+    try:
+        core.write_if_changed(gen2, t_symeval.translate(str(core.REPO)))
+        rep.oblige("regen:Gen/SymbolicEval.v", True, "Not/AND/OR/Union/ElseIf generator bodies")
+        ok_ev, log = core.coq_make(["Eql/EvalSourceProofs.vo"])
+        rep.oblige("proof:source-evaluators (eval of and_/else-if/union/not = translated method bodies)", ok_ev,
+                   "" if ok_ev else core.first_error(log))
+    except Exception as e:  # noqa: translator refused
+        rep.oblige("regen:Gen/SymbolicEval.v", False, str(e))
+        for ext in (".v", ".vo", ".vos", ".vok", ".glob"):
+            if gen2.with_suffix(ext).exists():
+                gen2.with_suffix(ext).unlink()
     model_ok = core.standard_proof_steps(rep, prop, targets)
     if model_ok:
         ok_show, log = core.coq_make(["Eql/Show.vo", "Eql/ShowFrag.vo"])
